@@ -2,6 +2,7 @@ SPECIFICATION GenSpec
 CONSTANTS
   NeqForeignFamily = TRUE
   LiveResets = FALSE
+  LiveDropsIdle = FALSE
   Ifaces <- GIfaces
   PktSet <- FreePkts
   QuerySet <- FreeQueries
